@@ -59,7 +59,7 @@ func TestVerifC16(t *testing.T) {
 			}
 		}
 	}
-	nSampled := env.pickN(96, 6000)
+	nSampled := env.pickN(96, 1500)
 	total := len(pairs) + nSampled
 	for q := 0; q < total; q++ {
 		idx := caseIdx
@@ -243,7 +243,7 @@ func TestVerifC16(t *testing.T) {
 	rec.note("exhaustive_dimension", "all 240 unequal (sender d/p, receiver d/p) pairs with d,p<=4 x every starting offset inside a group x {fresh, polluted} decoder history; everything else sampled")
 
 	// ---- stability: matching configuration, hostile arrival patterns -----------
-	for q := 0; q < env.pickN(96, 3000); q++ {
+	for q := 0; q < env.pickN(96, 800); q++ {
 		idx := caseIdx
 		caseIdx++
 		if !env.mine(idx) {
@@ -341,7 +341,7 @@ func TestVerifC16(t *testing.T) {
 func c16SessionPart(t *testing.T, rec *vrec, caseIdx *int64) {
 	env := rec.env
 	rec.alsoOwn = append(rec.alsoOwn, "C01")
-	for q := 0; q < env.pickN(16, 1600); q++ {
+	for q := 0; q < env.pickN(16, 200); q++ {
 		idx := *caseIdx
 		*caseIdx++
 		if !env.mine(idx) {
